@@ -29,18 +29,22 @@ type Spec struct {
 	Space   string  `json:"space"` // small | count | bytes
 	Proto   string  `json:"proto"`
 	Opt     ir.Opt  `json:"opt"`
-	Labels  []int   `json:"labels"`            // per stream: index into the protocol's label-set list
-	Shape   [][]int `json:"shape,omitempty"`   // small: per stream, entry-variant indexes
-	Counts  []int   `json:"counts,omitempty"`  // count: entries per stream
-	Pattern int     `json:"pattern,omitempty"` // count: 0 first kind only, 1 kinds cycle entry by entry
-	Lens    [][]int `json:"lens,omitempty"`    // bytes: per stream, line-length class of each entry
-	SameTs  bool    `json:"same_ts,omitempty"` // all entries of a stream share one timestamp (and so may be identical)
-	Seq     [][]int `json:"seq,omitempty"`     // fields: per record, the value index of every field dimension (last: line variant)
+	Labels  []int   `json:"labels"`             // per stream: index into the protocol's label-set list
+	Shape   [][]int `json:"shape,omitempty"`    // small: per stream, entry-variant indexes
+	Counts  []int   `json:"counts,omitempty"`   // count: entries per stream
+	Pattern int     `json:"pattern,omitempty"`  // count: 0 first kind only, 1 kinds cycle entry by entry
+	Lens    [][]int `json:"lens,omitempty"`     // bytes: per stream, line-length class of each entry
+	SameTs  bool    `json:"same_ts,omitempty"`  // all entries of a stream share one timestamp (and so may be identical)
+	Seq     [][]int `json:"seq,omitempty"`      // fields: per record, the value index of every field dimension (last: line variant)
 	LineLen int     `json:"line_len,omitempty"` // count: every log line is unique and this long (bodies that cross 1 MiB by repetition)
 	// special: one label set that contains a name the code treats specially (collected from the decoder sources) at
 	// position Pos (0 first, 1 middle, 2 last), said in a shape that makes the decoder call the row builder several
 	// times for it: Rep occurrences of the stream/series/line, N entries each (Influx: N numeric fields on the line,
 	// 0 = a log line), Pre points of another series in front (remote-write: moves the cross-series flush counter)
+	// sweep: one stream of N regular fixed-size records whose first label value is padded by Pad bytes, so that the
+	// record boundaries (and every field of a record) sweep across byte offset Limit of the body
+	Limit   int    `json:"limit,omitempty"`
+	Pad     int    `json:"pad,omitempty"`
 	Special string `json:"special,omitempty"`
 	Pos     int    `json:"pos,omitempty"`
 	Rep     int    `json:"rep,omitempty"`
@@ -275,6 +279,9 @@ func Build(s Spec) (*ir.Proto, []ir.Stream, error) {
 	if p == nil {
 		return nil, nil, fmt.Errorf("unknown protocol %q", s.Proto)
 	}
+	if s.Space == "sweep" {
+		return p, buildSweep(p, s.N, s.Pad, s.LineLen, s.Opt), nil
+	}
 	if s.Space == "special" {
 		streams, err := buildSpecial(s, p)
 		return p, streams, err
@@ -432,7 +439,7 @@ func judge(s Spec) verdict {
 	}
 	h := fnv.New64a()
 	h.Write([]byte(p.Name))
-	h.Write([]byte{byte(s.Opt.TTLDays), byte(s.Opt.TTLDays >> 8)}) // the X-Ttl-Days header is part of the request
+	h.Write([]byte{byte(s.Opt.TTLDays), byte(s.Opt.TTLDays >> 8), byte(s.Opt.Reader)}) // header and way of arrival are part of the case
 	h.Write(body)
 	v := verdict{bodyHash: h.Sum64()}
 	out := p.Parse(body, s.Opt, nil)
@@ -445,6 +452,16 @@ func judge(s Spec) verdict {
 	}
 	if out.Err != nil {
 		msg := out.Err.Error()
+		if out.Status >= 400 && out.Status < 500 && s.Space == "sweep" && sweepShapeAccepted(p, s.Opt) {
+			// The records of a sweep body are structurally identical for every padding, length and way of arrival, and
+			// the three-record body of the same spelling is accepted: this rejection is not "shape not supported", it
+			// depends on where a buffer boundary falls.
+			v.outcome = fmt.Sprintf("%s:rejected_%d_by_alignment", p.Name, out.Status)
+			v.class = "wellformed_body_rejected_depending_on_alignment_or_arrival:" + p.Name
+			v.what = fmt.Sprintf("%s: %d regular records, padding %d, reader %s: answered %d %s although the same records are accepted in a 3-record body",
+				p.Name, s.N, s.Pad, ir.ReaderName(s.Opt.Reader), out.Status, trunc(msg, 120))
+			return v
+		}
 		if out.Status >= 400 && out.Status < 500 {
 			v.outcome = fmt.Sprintf("%s:rejected_%d", p.Name, out.Status)
 			v.rejected = fmt.Sprintf("%s %d %s", p.Name, out.Status, trunc(msg, 80))
@@ -647,7 +664,89 @@ func buildSpecial(s Spec, p *ir.Proto) ([]ir.Stream, error) {
 	return streams, nil
 }
 
+// buildSweep: N regular records of fixed width (fixed-width timestamps, lines and values) in one stream whose first
+// label value carries Pad filler bytes.
+// lineFill extra filler bytes make the record size a power of two, so that the bytes one buffer further are the same
+// field of another record.
+func buildSweep(p *ir.Proto, n, pad, lineFill int, o ir.Opt) []ir.Stream {
+	fill := "x" + strings.Repeat("p", pad)
+	var labels []ir.Label
+	switch p {
+	case ir.RemoteWrite:
+		labels = L("__name__", "m", "a", fill)
+	case ir.Influx:
+		labels = L("measurement", "m", "a", fill)
+	case ir.DatadogLogs:
+		labels = L("type", "datadog", "service", fill)
+	case ir.DatadogSeries:
+		labels = L("__name__", fill)
+	default:
+		labels = L("a", fill)
+	}
+	st := step(p, o)
+	str := ir.Stream{Labels: labels, Entries: make([]ir.Entry, 0, n)}
+	for i := 0; i < n; i++ {
+		ts := T0 + int64(i+1)*st
+		if strings.Contains(p.Kinds, "l") {
+			str.Entries = append(str.Entries, ir.Entry{TsNs: ts, Line: fmt.Sprintf("record %08d of the sweep", i) + strings.Repeat(".", lineFill), Type: ir.TypeLog})
+		} else {
+			str.Entries = append(str.Entries, ir.Entry{TsNs: ts, Value: float64(1000+i%9000) + 0.5, Type: ir.TypeMetric})
+		}
+	}
+	return []ir.Stream{str}
+}
+
+// sweepRenderings: the spellings whose records differ in layout (both Loki JSON layouts, every entry key order of the
+// entries layout in thorough).
+func sweepRenderings(p *ir.Proto, thorough bool) []ir.Opt {
+	switch p {
+	case ir.LokiJSON:
+		out := []ir.Opt{{Layout: 0}, {Layout: 1}, {Layout: 1, Perm: 2, TsKey: 1, TsFmt: 1}}
+		if thorough {
+			for perm := 0; perm < 6; perm++ {
+				for tf := 0; tf < 3; tf++ {
+					out = append(out, ir.Opt{Layout: 1, Perm: perm, TsKey: perm % 2, TsFmt: tf, EntriesFirst: perm%2 == 1})
+				}
+			}
+		}
+		return out
+	case ir.Influx:
+		return []ir.Opt{{Precision: time.Nanosecond}, {Precision: time.Second}}
+	case ir.DatadogLogs:
+		return []ir.Opt{{}, {KeyRot: 3}}
+	case ir.DatadogSeries:
+		return []ir.Opt{{}, {EntriesFirst: true, KeyRot: 1}}
+	}
+	return []ir.Opt{{}}
+}
+
 var specialLabelNames, specialContexts []string
+var sizeLimits []int
+
+var sweepAccepted sync.Map
+
+// sweepShapeAccepted: is the three-record sweep body of this spelling, handed over whole, accepted?
+func sweepShapeAccepted(p *ir.Proto, o ir.Opt) bool {
+	o.Reader = 0
+	key := fmt.Sprintf("%s|%+v", p.Name, o)
+	if v, ok := sweepAccepted.Load(key); ok {
+		return v.(bool)
+	}
+	ok := false
+	if body, err := p.Render(buildSweep(p, 3, 0, 0, o), o); err == nil {
+		out := p.Parse(body, o, nil)
+		ok = out.Err == nil && len(out.Rows()) == 3
+	}
+	sweepAccepted.Store(key, ok)
+	return ok
+}
+
+func maxInt(a, b int) int {
+	if a > b {
+		return a
+	}
+	return b
+}
 
 func trunc(s string, n int) string {
 	if len(s) > n {
@@ -833,6 +932,74 @@ func enumerate(thorough bool, emit func(Spec)) map[string]int64 {
 								send("fields_triples", Spec{Space: "fields", Proto: p.Name, Opt: o, Seq: [][]int{r1, r2, r3}})
 							}
 						}
+					}
+				}
+			}
+		}
+		// ---- sweep space: how the body arrives, and record boundaries swept across every buffer size / limit the
+		//      decoders use (collected from the sources) ------------------------------------------------------------
+		for _, o := range sweepRenderings(p, thorough) {
+			rec := func(n int) int {
+				b, err := p.Render(buildSweep(p, n, 0, 0, o), o)
+				if err != nil {
+					ev.Fatal("sweep body of %s cannot be rendered: %v", p.Name, err)
+				}
+				return len(b)
+			}
+			recsize := (rec(40) - rec(8)) / 32
+			if p.Snappy {
+				recsize = 64 // compressed bodies are decoded into one buffer before the parser sees them: a coarse sweep suffices
+			}
+			if recsize > 96 {
+				recsize = 96 // the padding travels in a label value, which is cut at 100 bytes
+			}
+			// second pass (log protocols, uncompressed): records filled up to a power-of-two size, so that what lies one
+			// buffer further is the same field of another record (a stale buffer then yields a plausible wrong value)
+			fills := []int{0}
+			if strings.Contains(p.Kinds, "l") && !p.Snappy {
+				pow := 64
+				for pow < recsize {
+					pow *= 2
+				}
+				if pow-recsize > 0 && pow <= 128 {
+					fills = append(fills, pow-recsize)
+				}
+			}
+			for _, fill := range fills {
+				recsize := recsize + fill
+				if recsize > 96 && fill == 0 {
+					recsize = 96
+				}
+				for _, limit := range sizeLimits {
+					if fill > 0 && (limit < 4096 || limit >= 1000000) {
+						continue
+					}
+					n := (2*limit+2048)/maxInt(recsize, 24) + 2
+					stepPad := 1
+					switch {
+					case p.Snappy:
+						stepPad = 16
+					case limit >= 1000000 && !thorough:
+						stepPad = recsize/3 + 1 // quick: three alignments of the 1 MB bodies, the full sweep is in thorough
+					}
+					for pad := 0; pad < recsize; pad += stepPad {
+						if pad > 96 {
+							break // the padding travels in a label value, which is cut at 100 bytes
+						}
+						send("sweep_record_boundaries_across_limits", Spec{Space: "sweep", Proto: p.Name, Opt: o, Limit: limit, N: n, Pad: pad, LineLen: fill})
+					}
+				}
+			}
+			// reader kinds: every way a body can arrive x a small, a 4 KiB- and a 64 KiB-crossing body x three alignments
+			for kind := 1; kind < ir.ReaderKinds; kind++ {
+				oo := o
+				oo.Reader = kind
+				for _, n := range []int{3, 200, 2200} {
+					for _, pad := range []int{0, recsize / 3, (2 * recsize) / 3} {
+						if n == 2200 && kind == 1 && !thorough && pad > 0 {
+							continue // one-byte reads of a 130 KiB body: one alignment in quick
+						}
+						send("arrival_reader_kinds", Spec{Space: "sweep", Proto: p.Name, Opt: oo, Limit: 0, N: n, Pad: pad})
 					}
 				}
 			}
@@ -1074,6 +1241,20 @@ func main() {
 	if specialLabelNames, specialContexts, err = ir.SpecialNames(ev.Repo()); err != nil {
 		ev.Fatal("cannot collect the special label names from the decoder sources: %v", err)
 	}
+	lim, err := ir.SizeLimits(ev.Repo())
+	if err != nil {
+		ev.Fatal("cannot collect the size limits from the decoder sources: %v", err)
+	}
+	r.Extra["integer_constants_collected_from_source"] = lim
+	seenLim := map[int]bool{}
+	for _, l := range append(lim, ir.LibraryLimits...) {
+		if l >= 512 && l <= 4<<20 && !seenLim[l] { // as byte offsets; counts such as the 1000-point counter are the count classes
+			seenLim[l] = true
+			sizeLimits = append(sizeLimits, l)
+		}
+	}
+	sort.Ints(sizeLimits)
+	r.Extra["byte_limits_swept"] = sizeLimits
 	r.Extra["special_label_names_collected_from_source"] = specialLabelNames
 	r.Extra["context_values_collected_from_source"] = specialContexts
 	if r.Replay != "" {
